@@ -82,7 +82,8 @@ def label_plit(rng, nb, ni, values=None):
 def inl(rng, d, lits=True, links=True, nb=False, ni=False, pl=True):
     """One inline node.  nb / ni: already inside bold / italic (quote runs are never nested in themselves:
     '' inside '' has no defined reading).  pl: protected literal brackets allowed (not inside brace
-    arguments, where the parser keeps the protecting tag as text; "open": only the opening kind)."""
+    arguments, where the parser keeps the protecting tag as text; "open": only the opening kind; "cell": inside a
+    table -- protected literals as plain cell text, but none inside links)."""
     r = rng.random()
     opening = MODE["lit"] == "open"
     if opening:
@@ -103,27 +104,31 @@ def inl(rng, d, lits=True, links=True, nb=False, ni=False, pl=True):
             return ["t", rng.choice(WORDS)]
         txt = None
         if rng.random() < 0.5:
-            txt = inls(rng, min(d - 1, 1), False, False, 2, nb, ni, pl)
-        if pl and rng.random() < 0.3:
-            # text with ]] but no [[ (and the reverse) inside the label, where an unprotected pair would
-            # end / restart the link
-            txt = txt or []
-            txt.insert(rng.randrange(len(txt) + 1), label_plit(rng, nb, ni))
-        if pl is True and rng.random() < 0.05:
-            # the label ends in bracket text / in an external link, right in front of the closing ]]
-            txt = txt or []
-            if rng.random() < 0.6:
-                txt.append(["plit", rng.choice(PLITS_EDGE)])
-            else:
-                txt.append(["ext", rng.choice(URLS), [["t", rng.choice(WORDS)]] if rng.random() < 0.7 else None])
+            # (no protected literals from the general branch in a label: see below)
+            txt = inls(rng, min(d - 1, 1), False, False, 2, nb, ni, False)
         target = rng.choice(WORDS + ["Cat:x", "a#frag", ":en:w"])
-        if pl and rng.random() < 0.04:
-            target = rng.choice(["a]" + MARKER + "]b", "File:a.png|thumb"])
-            if MARKER in target:
-                # a protected target only with a plain-word label: with a template / other protected brackets in
-                # the label the parser does not recognise the link at all ('[[a]<noinclude/>]b|{{t}} x]]' is
-                # text), which leaves a loose | -- in a table cell a new cell in the middle of bold (parser matter)
+        if pl is True and rng.random() < 0.33:
+            # Protected bracket text in a link: text with ]] but no [[ (and the reverse) inside the label, a label
+            # that ends in bracket text or in an external link right in front of the closing ]], or a protected
+            # target.  Conservative shape: ONE bracket-bearing element, everything else plain words, never inside a
+            # table (pl == "cell" there): with a template, a second [..] or more protected brackets after a
+            # protected pair the parser does not recognise the link at all ('[[a|p]<noinclude/>]q {{u}}]]',
+            # '[[a|p]<noinclude/>]q [w]<noinclude/>]]', '[[a]<noinclude/>]b|{{t}} x]]' are text) -- a parser matter
+            # that leaves a loose | which, in a table cell, starts a new cell in the middle of bold/italic.
+            w = rng.random()
+            pre = [["t", rng.choice(WORDS)]] if rng.random() < 0.5 else []
+            if w < 0.12:
+                target = "a]" + MARKER + "]b"
                 txt = [["t", rng.choice(WORDS)]] if rng.random() < 0.5 else None
+            elif w < 0.22:
+                txt = pre + [["plit", rng.choice(PLITS_EDGE)]]
+            elif w < 0.30:
+                txt = pre + [["ext", rng.choice(URLS), [["t", rng.choice(WORDS)]] if rng.random() < 0.7 else None]]
+            else:
+                post = [["t", rng.choice(WORDS)]] if rng.random() < 0.5 else []
+                txt = pre + [label_plit(rng, nb, ni)] + post
+        elif pl and rng.random() < 0.03:
+            target = "File:a.png|thumb"
         return ["link", target, txt, rng.choice(["", "", "s", "ing"])]
     if r < 0.66:
         if not links:
@@ -202,7 +207,7 @@ def block(rng, d, bd):
             cells = []
             for ci in range(rng.randint(1, 3)):
                 cells.append([rng.choice(["|", "|", "!"]), attrs(rng, 0.3), rng.choice([lead, lead, " ", ""]),
-                              inls(rng, min(d - 1, 2), MODE["lit"] == "close", True, 2) if rng.random() < 0.93 else [],
+                              inls(rng, min(d - 1, 2), MODE["lit"] == "close", True, 2, False, False, "cell") if rng.random() < 0.93 else [],
                               bool(ci > 0 and rng.random() < 0.35)])
             for ci in range(1, len(cells)):
                 # (parser matter, C03: a first ||-style cell containing '=' is read as row attributes)
@@ -211,7 +216,7 @@ def block(rng, d, bd):
             rows.append([attrs(rng, 0.25), cells])
         cap = None
         if rng.random() < 0.25:
-            cap = [attrs(rng, 0.25, 1), rng.choice(["", "", " "]), inls(rng, min(d - 1, 1), False, True, 2)]
+            cap = [attrs(rng, 0.25, 1), rng.choice(["", "", " "]), inls(rng, min(d - 1, 1), False, True, 2, False, False, "cell")]
         return ["table", attrs(rng, 0.45), cap, rows]
     if r < 0.79:
         return ["hr"]
